@@ -1,8 +1,20 @@
 package checks
 
 import (
-	"sort"
+	"context"
+	"errors"
+	"math/big"
+	"strings"
+
+	"github.com/jackc/pgx/v5/pgconn"
+
+	ledger "github.com/formancehq/ledger/internal"
+	ledgerstore "github.com/formancehq/ledger/internal/storage/ledger"
+
 	"fmt"
+	"github.com/formancehq/ledger/verifharness/pgshim"
+	"github.com/formancehq/ledger/verifharness/realstore"
+	"sort"
 
 	"github.com/formancehq/ledger/verifharness/core"
 	"github.com/formancehq/ledger/verifharness/sim"
@@ -215,5 +227,56 @@ func runC14Sequential(r *core.Run) {
 			r.Count("import_of_export_refused", 1)
 		}
 		r.Eval(fmt.Sprint(shape), true)
+	})
+}
+
+// runC14ConflictTranslation drives the REAL storage CommitTransaction over the SQL driver answering the
+// INSERT INTO transactions with Postgres' unique violation on the per-ledger reference index: whatever the
+// shape of the transaction (id drawn from the sequence, or given by the caller as imports do), the caller
+// must get the reference-conflict error that the API maps to 409 / the import maps to a refusal.
+func runC14ConflictTranslation(r *core.Run) {
+	r.Floor("reference_violations_translated", 8)
+	r.ForEach("conflict-translation", r.N(16, 160), 0, func(c *core.Case) {
+		withID := c.Index%2 == 0
+		inTx := (c.Index/2)%2 == 0
+		db := realstore.NewSysDB()
+		defer db.Close()
+		tables := realstore.NewTables()
+		db.Responder = func(ctx context.Context, cn *pgshim.Conn, kind, sqlText string) (*pgshim.Rows, bool, error) {
+			if strings.HasPrefix(strings.ToLower(strings.TrimSpace(sqlText)), `insert into "_default".transactions`) {
+				return nil, true, &pgconn.PgError{Severity: "ERROR", Code: "23505", ConstraintName: "transactions_reference", Message: `duplicate key value violates unique constraint "transactions_reference"`}
+			}
+			return tables.Respond(ctx, cn, kind, sqlText)
+		}
+		d := db.NewDriver()
+		ctx := context.Background()
+		l := ledger.MustNewWithDefault("l1")
+		st, err := d.CreateLedger(ctx, &l)
+		if err != nil {
+			r.Inconclusive("CreateLedger: " + err.Error())
+			return
+		}
+		tx := ledger.NewTransaction().WithPostings(ledger.NewPosting("world", "bank", "USD", big.NewInt(int64(1+c.Rng.Intn(100))))).WithReference("ref-1")
+		if withID {
+			tx = tx.WithID(uint64(1 + c.Rng.Intn(50)))
+		}
+		target := st
+		if inTx {
+			t, _, err := st.BeginTX(ctx, nil)
+			if err != nil {
+				r.Inconclusive("BeginTX: " + err.Error())
+				return
+			}
+			defer func() { _ = t.Rollback(ctx) }()
+			target = t
+		}
+		err = target.CommitTransaction(ctx, &tx)
+		shape := fmt.Sprintf("id-given=%v|in-tx=%v", withID, inTx)
+		r.Eval("conflict-translation|"+shape, withID)
+		r.Count("reference_violations_translated", 1)
+		r.Seen("reference_violation_results", fmt.Sprintf("%s -> conflict=%v", shape, errors.Is(err, ledgerstore.ErrTransactionReferenceConflict{})))
+		if !errors.Is(err, ledgerstore.ErrTransactionReferenceConflict{}) {
+			c.Violation("C14/unique-violation-on-the-reference-index-not-reported-as-a-reference-conflict:"+shape, map[string]any{"error": fmt.Sprint(err), "transaction_id_given_by_caller": withID})
+		}
 	})
 }
